@@ -48,6 +48,31 @@ def load_known():
 
 verif.load_known = load_known
 
+_orig_regenerate = verif.regenerate
+_xcheck = {}
+
+
+def regenerate():
+    """translators, then the mechanical cross-check of the lock extractor against the compiler's GIMPLE
+    (translate/locks_gimple_xcheck.py); a difference is a broken tie model <-> code and is reported like
+    a failing translator: `VIOLATION ... no-failing-input-found`, the function named in the replay header"""
+    out = _orig_regenerate()
+    x = os.path.join(verif.VERIF, "translate", "locks_gimple_xcheck.py")
+    if any(f == "gen_locks.py" and rc != 0 for f, rc, _ in out):
+        return out                       # no table to compare
+    rc, so, se = verif.sh([sys.executable, x], timeout=120)
+    msg = (so + se).strip()
+    _xcheck["rc"] = rc
+    _xcheck["summary"] = [l for l in msg.split("\n") if "functions compared" in l][-1:] or [msg[-300:]]
+    _xcheck["broken"] = [l for l in msg.split("\n") if "BROKEN TIE" in l][:20]
+    _xcheck["notes"] = [l for l in msg.split("\n") if ": note " in l][:20]
+    out.append(("locks_gimple_xcheck.py (extractor vs gcc -fdump-tree-gimple)", rc,
+                "\n".join(_xcheck["broken"]) or msg[-1500:]))
+    return out
+
+
+verif.regenerate = regenerate
+
 API_FNS = ["vbi_decode", "vbi_fetch_cc_page", "vbi_channel_switched", "vbi_raw_decode", "vbi_raw_decoder_add_services",
            "vbi_raw_decoder_remove_services", "vbi_raw_decoder_check_services", "vbi_raw_decoder_resize",
            "vbi_raw_decoder_parameters", "vbi_raw_decoder_reset", "vbi_event_handler_register"]
@@ -262,26 +287,34 @@ def ttx_header(rng, mag, page, flags=0):
 class C20(verif.Spec):
     prop = "C20"
     comp = "locks"
-    lean_modules = ["ZvbiModel.Props.C20"]
+    # the root first: lake then builds the table parts in parallel, the later entries are no-ops
+    lean_modules = ["ZvbiModel.Props.C20", "ZvbiModel.Props.C20TableA", "ZvbiModel.Props.C20TableB",
+                    "ZvbiModel.Props.C20TableC", "ZvbiModel.Props.C20TableD", "ZvbiModel.Props.C20Snapshot"]
     harness = "locks_harness"
     harness_link_lib = True
     timeout_per_case = 5.0
-    partial_note = ("Proof of lock discipline, deadlock freedom and critical-section exclusiveness over an abstraction "
-                    "extracted from the source (control-flow graphs with lock/unlock/access/callout actions), not over the "
-                    "C semantics; sequential consistency assumed (no memory-model effects); accesses are field-granular over "
-                    "a fixed list of shared fields; roles outside the documented set (vbi_event_handler_register from another "
-                    "thread, resize/reset concurrently with decode) are not claimed. Two genuine defects of the unchanged tree "
-                    "are excluded by name (K1 unlocked caption reset, K2 callbacks under cc.mutex) and reported as known findings.")
+    partial_note = ("Proof of lock discipline, deadlock freedom, critical-section exclusiveness and section-level "
+                    "serialisability over an abstraction extracted from the source (control-flow graphs with "
+                    "lock/unlock/access/callout actions), not over the C semantics; sequential consistency assumed (no "
+                    "memory-model effects); accesses are field-granular over a fixed list of shared fields; roles outside "
+                    "the documented set (vbi_event_handler_register from another thread, resize/reset concurrently with "
+                    "decode) are not claimed. No exception list: the defects K1/K2/K3 of the first delivery are repaired in "
+                    "the source (c1561e0, f194102) and the theorems are stated with noKnown/noSite. In the Cc instance of "
+                    "the serialisability theorem the split of one vbi_decode_caption call into the sections between its "
+                    "callbacks is a parameter (any split whose composition is Cc.decodePair): the Cc model counts events "
+                    "but does not expose the intermediate states.")
     assumptions = ["pthread mutexes give mutual exclusion; lock blocks, trylock does not",
                    "at most one thread calls vbi_decode on a decoder (documented: not reentrant)",
                    "event handlers call only vbi_fetch_cc_page / vbi_channel_switched on the decoder",
                    "buffers passed to vbi_raw_decode match rd->count[] (so resize is not concurrent with decode)"]
-    trusted_base = ["translate/gen_locks.py: C statement parser, inlining, pointer-provenance rules (cross-checked: every "
-                    "runtime lock/callback/field-change trace is accepted as a path of the graph; every TSan race is a listed pair)",
+    trusted_base = ["translate/gen_locks.py: C statement parser, inlining, pointer-provenance rules (cross-checked three ways: "
+                    "every runtime lock/callback/field-change trace is accepted as a path of the graph; every TSan race is a "
+                    "listed pair; per C function the ordered pthread_mutex_* calls with line and mutex, the shared fields "
+                    "written, the callouts and the calls agree with what gcc -fdump-tree-gimple shows, derived by "
+                    "type-based provenance in translate/locks_gimple_xcheck.py)",
                     "harness/locks_harness.c + ThreadSanitizer (gcc 12 libtsan) as the runtime detector",
-                    "Locks/Instance.lean: the lists of known exceptions K1/K2 and the lock order"]
-    open_statements = ["documented_roles_race_free (knownRace := noKnown) - false on the unchanged tree: K1",
-                       "callouts_reentrant (no callout under cc.mutex) - false on the unchanged tree: K2"]
+                    "Locks/Instance.lean: the lock order and the field <-> mutex association"]
+    open_statements = []
     rule = ("cases = corpus + seeded sequential op streams (caption command scripts incl. XDS and ITV triggers, teletext/VPS "
             "lines, fetch / channel switch / raw decoder service changes, malformed op lines) + concurrent role mixes "
             "(`par`); non-trivial = at least one API trace or concurrent run was produced; distinct by md5 of the op lines")
@@ -399,6 +432,8 @@ class C20(verif.Spec):
                         ln, a, b = frames[i]
                         i += 1
                         items.append(cc(a, b, ln))
+                if rng.random() < 0.06:                      # null pairs, the most common caption data on air
+                    items.append(cc(0, 0, rng.choice([21, 284, 284])))
                 if rng.random() < 0.12:
                     items.append(ttx_header(rng, rng.choice([1, 1, 2]), rng.choice([0x00, 0x00, 0x23, 0xFF]), rng.randrange(16)))
                 if rng.random() < 0.05:
@@ -560,6 +595,12 @@ class C20(verif.Spec):
                             unpredicted.add(l[5:])
             self.extra_coverage["tsan_races_seen"] = sorted({l[5:] for ls in _last_impl.values() for l in ls if l.startswith("race ")})
             self.extra_coverage["tsan_races_not_in_extraction"] = sorted(unpredicted)
+        self.extra_coverage["gimple_xcheck"] = dict(_xcheck) if _xcheck else "not run"
+        parc = [c[0].split() for c in ctx["cases"] if c and c[0].startswith("par ") and len(c[0].split()) == 6 and c[0].split()[2].isdigit()]
+        self.extra_coverage["tsan_concurrent_runs"] = {
+            "runs": len(parc), "threads": sum(len(w[5]) for w in parc), "frames_per_decode_thread_total": sum(int(w[2]) for w in parc),
+            "completed": len([l for ls in _last_impl.values() for l in ls if l.startswith("ok par")]),
+            "reports": len([l for ls in _last_impl.values() for l in ls if l.startswith(("race ", "lockorder ", "tsan "))])}
         side = os.path.join(verif.CACHE, "locks_table.json")
         if os.path.exists(side):
             t = json.load(open(side))
